@@ -49,7 +49,9 @@ pub(super) fn build_type_lookup(
 				.collect();
 			let struct_decl = syn::ItemStruct {
 				attrs: Default::default(),
-				vis: syn::Visibility::Inherited,
+				// It appears as associated type of a trait implemented for the (possibly public)
+				// type we derive on, so it must not be less visible than that type
+				vis: syn::Visibility::Public(Default::default()),
 				struct_token: syn::token::Struct::default(),
 				ident: type_lookup_ident.clone(),
 				generics: syn::Generics {
